@@ -49,4 +49,19 @@ LimitSignalIdx(n, a2, b2) == { i \in 0 .. (n - 1) : (a2 = None \/ 2 * i >= a2) /
 
 \* flatten_dfs: concatenation in order, each row carrying the label of its table
 Flatten(tables, labels) == Concat([k \in 1 .. Len(tables) |-> [j \in 1 .. Len(tables[k]) |-> [row |-> tables[k][j], label |-> labels[k]]]])
+\* ---- rename_extrema_df (C04, C09): what turns the peak-centred analysis of the NEGATED signal into the trough-centred table ----
+\* a column is [name, fp, fpneg, fpone]: fingerprints of its values v, of -v and of 1 - v.  Centre "peak": nothing changes.  Centre "trough":
+\* peak/trough and rise/decay swap names, the two extremum voltages change sign, the two symmetry fractions become one minus themselves,
+\* and the sample columns are renamed exactly when return_samples is set.  Order and number of columns are kept.
+FeatRename(n) == CASE n = "time_peak" -> "time_trough" [] n = "time_trough" -> "time_peak" [] n = "volt_peak" -> "volt_trough" [] n = "volt_trough" -> "volt_peak"
+                   [] n = "time_rise" -> "time_decay" [] n = "time_decay" -> "time_rise" [] n = "volt_rise" -> "volt_decay" [] n = "volt_decay" -> "volt_rise" [] OTHER -> n
+SampRename(n) == CASE n = "sample_peak" -> "sample_trough" [] n = "sample_zerox_decay" -> "sample_zerox_rise" [] n = "sample_zerox_rise" -> "sample_zerox_decay"
+                   [] n = "sample_last_zerox_decay" -> "sample_last_zerox_rise" [] n = "sample_last_trough" -> "sample_last_peak"
+                   [] n = "sample_next_trough" -> "sample_next_peak" [] OTHER -> n
+RenamedCol(col, centre, rs) ==
+  IF centre = "peak" THEN <<col.name, col.fp>>
+  ELSE LET n1 == FeatRename(col.name)
+           n2 == IF rs THEN SampRename(n1) ELSE n1
+       IN  <<n2, IF n2 \in {"volt_peak", "volt_trough"} THEN col.fpneg ELSE IF n2 \in {"time_rdsym", "time_ptsym"} THEN col.fpone ELSE col.fp>>
+RenameOK(cols, centre, rs, out) == out = [k \in 1 .. Len(cols) |-> RenamedCol(cols[k], centre, rs)]
 =============================================================================
